@@ -130,6 +130,49 @@ def resume_label_features(p):
     return f
 
 
+def _gosubs(stmts, fors, labels, gosubs, returns):
+    for s in stmts:
+        k = s["k"]
+        if k == "label":
+            labels[s["l"]] = list(fors)
+        elif k == "gosub":
+            gosubs.append(list(fors))
+        elif k == "return" and s.get("l"):
+            returns.append(s["l"])
+        elif k == "if":
+            for a in s["arms"]:
+                _gosubs(a["body"], fors, labels, gosubs, returns)
+            _gosubs(s["els"], fors, labels, gosubs, returns)
+        elif k == "select":
+            for c in s["cases"]:
+                _gosubs(c["body"], fors, labels, gosubs, returns)
+            _gosubs(s["els"], fors, labels, gosubs, returns)
+        elif k == "for":
+            _gosubs(s["body"], fors + [s["id"]], labels, gosubs, returns)
+        elif k in ("while", "do"):
+            _gosubs(s["body"], fors, labels, gosubs, returns)
+
+
+def return_label_features(p):
+    """return-label-leaves-for-into-enclosing-for: a GOSUB stands in a FOR body that does not contain the label a RETURN label
+    names, and that label stands inside a FOR body itself (the same register-frame leak as with RESUME label)"""
+    f = set()
+    for body in [p["main"]] + [sp["body"] for sp in p.get("subs", [])]:
+        labels, gosubs, returns = {}, [], []
+        _gosubs(body, [], labels, gosubs, returns)
+        for l in returns:
+            if l not in labels or not labels[l]:
+                continue
+            ls = labels[l]
+            for gs in gosubs:
+                common = 0
+                while common < len(gs) and common < len(ls) and gs[common] == ls[common]:
+                    common += 1
+                if len(gs) > common:
+                    f.add("return-label-leaves-for-into-enclosing-for")
+    return f
+
+
 def _vars_in(e):
     return {(x["n"], x["t"]) for x in walk_expr(e) if x.get("k") == "var"}
 
@@ -165,6 +208,7 @@ def of_prog(p):
     f = set()
     f |= jump_features(p["main"])
     f |= resume_label_features(p)
+    f |= return_label_features(p)
     f |= call_features(p)
     for sp in p.get("subs", []):
         f |= jump_features(sp["body"])
